@@ -793,6 +793,9 @@ func validateLeaseSet2Inputs(
 	if err := validateExpiresOffset(expiresOffset); err != nil {
 		return err
 	}
+	if err := validateReservedFlags(flags); err != nil {
+		return err
+	}
 	if err := validateOfflineSignatureFlags(flags, offlineSig); err != nil {
 		return err
 	}
@@ -825,6 +828,18 @@ func validateExpiresOffset(expiresOffset uint16) error {
 			Code("invalid_expires_offset").
 			With("max_allowed", LEASESET2_MAX_EXPIRES_OFFSET).
 			Errorf("expires offset %d exceeds maximum %d", expiresOffset, LEASESET2_MAX_EXPIRES_OFFSET)
+	}
+	return nil
+}
+
+// validateReservedFlags rejects flags with reserved bits (15-3) set, as Validate does.
+func validateReservedFlags(flags uint16) error {
+	reservedMask := uint16(0xFFF8)
+	if flags&reservedMask != 0 {
+		return oops.
+			Code("reserved_flags_set").
+			With("flags", flags).
+			Errorf("reserved flag bits 15-3 must be zero, got 0x%04x", flags&reservedMask)
 	}
 	return nil
 }
@@ -866,6 +881,15 @@ func validateEncryptionKeyInputs(encryptionKeys []EncryptionKey) error {
 				With("declared_len", key.KeyLen).
 				With("actual_len", len(key.KeyData)).
 				Errorf("encryption key %d: declared KeyLen %d does not match actual KeyData length %d", i, key.KeyLen, len(key.KeyData))
+		}
+		if expectedSize, ok := key_certificate.CryptoPublicKeySizes[key.KeyType]; ok && int(key.KeyLen) != expectedSize {
+			return oops.
+				Code("encryption_key_size_mismatch").
+				With("key_index", i).
+				With("key_type", key.KeyType).
+				With("declared_len", key.KeyLen).
+				With("expected_len", expectedSize).
+				Errorf("encryption key %d: KeyLen %d does not match expected size %d for key type %d", i, key.KeyLen, expectedSize, key.KeyType)
 		}
 	}
 	return nil
